@@ -58,7 +58,7 @@ class Gen:
         self.kinds = kinds or ["none", "bool", "int", "float", "str", "any", "list", "set", "frozenset", "vtuple",
                                "tuple", "mapping", "optional", "union", "literal", "enum", "newtype",
                                "cint", "cfloat", "cstr", "clist", "cdict", "merged", "dataclass", "dataclass", "namedtuple", "typeddict", "recursive"]
-    LEAVES = ["none", "bool", "int", "float", "str", "any", "literal", "enum", "cint", "cfloat", "cstr", "merged"]
+    LEAVES = ["none", "bool", "int", "float", "str", "any", "literal", "enum", "cint", "cfloat", "cstr", "merged", "falsy_const"]
     def ty(self, depth):
         r = self.rnd
         k = r.choice(self.kinds if depth > 0 else [k for k in self.kinds if k in self.LEAVES])
@@ -280,6 +280,15 @@ class Gen:
         lines = (["@dataclass", f"class {n}:"] if kind == "dataclass" else [f"class {n}(NamedTuple):"]) + [f"    {f['name']}: {f['ty'].py}" for f in fs]
         self.pool.add(lines)
         return self._obj_node(kind, n, fs, raw=(kind == "dataclass"), decl=lines)
+    def g_falsy_const(self, d):
+        """a single falsy value (Literal[0] / Literal[False] / Literal[''] / one-member Enum of value 0): a `const` that a truthiness
+        test would lose"""
+        v = self.rnd.choice([0, False, "", 0])
+        if self.rnd.random() < 0.3:
+            n = self.pool.fresh("E"); decl = [f"class {n}(Enum):", f"    Z = {v!r}"]
+            self.pool.add(decl)
+            return Node("enum", ["enum", n, [["Z", lit_proto(v)]]], n, vals=[v], decl=decl)
+        return Node("literal", ["literal", [lit_proto(v)]], f"Literal[{v!r}]", vals=[v])
     def g_optenum1(self, d):
         """Optional[E] for an Enum of one member (its schema is a `const`)"""
         n = self.pool.fresh("E"); m, v = self.rnd.choice([("X", "x"), ("Y", 1), ("Z", "zz")])
@@ -376,6 +385,12 @@ class Gen:
             if self.rnd.random() < 0.4: f["alias"] = nm.upper() + "_al"
             fs.append(f)
         a, b = names[0], names[1]
+        if self.rnd.random() < 0.4:
+            # two fields of one named class: the class is referenced twice, so the schema of the root carries definitions
+            sub = self.g_plain(0)
+            for nm in ("sub1", "sub2"):
+                t = Node("optional", ["union", [sub.lean, ["none"]]], f"Optional[{sub.py}]", [sub])
+                fs.append(dict(name=nm, alias=nm, required=False, fbod=False, ty=t, dflt=["n"], dflt_src="None"))
         lines = ["@dataclass", f"class {n}:"]
         for f in fs:
             md = f"metadata=alias({f['alias']!r})" if f["alias"] != f["name"] else ""
